@@ -34,6 +34,7 @@ type randLog struct {
 	reads [][]byte
 	fail  int // fail the n-th next read (1-based); 0 = never
 	owner *Party
+	zeroSMP bool // SMP-parameter sized reads return zero (a peer that chooses degenerate exponents)
 }
 
 func (l *randLog) Read(p []byte) (int, error) {
@@ -47,7 +48,9 @@ func (l *randLog) Read(p []byte) (int, error) {
 	for i := range p {
 		p[i] = 0
 	}
-	if n == smpParamLenV {
+	if l.zeroSMP && (n == smpParamLenV || n == 16) {
+		// all zero
+	} else if n == smpParamLenV {
 		copy(p[n-5:], l.r.Bytes(5))
 	} else {
 		copy(p, l.r.Bytes(n))
@@ -86,7 +89,7 @@ func (p *Party) ReceivedSymmetricKey(usage uint32, data []byte, key []byte) {
 	p.events = append(p.events, 300)
 }
 
-var partyKeys = []*otr3.DSAPrivateKey{nil, aliceKey, bobKey, eveKey}
+var partyKeys = []*otr3.DSAPrivateKey{nil, aliceKey, bobKey, eveKey, malKey}
 
 func newParty(id, pol int, seed uint64) *Party {
 	p := &Party{id: id, pol: pol, rnd: &randLog{r: NewRNG(seed*977 + uint64(id))}}
